@@ -451,7 +451,7 @@ func c05OpenEx(s *srv.Server, name string, flv bool, r *rand.Rand, videoOnly boo
 		if err != nil {
 			return nil, fmt.Errorf("witness: %w", err)
 		}
-		if _, ok := s.Notify.WaitSessionFrom(5*time.Second, from, "sub_start", ss.witness.Conn.LocalAddr().String()); !ok {
+		if _, ok := s.Notify.WaitSessionFrom(5*time.Second, from, "sub_start", srv.Key(ss.witness.Conn)); !ok {
 			return nil, fmt.Errorf("witness not admitted")
 		}
 	}
@@ -459,7 +459,7 @@ func c05OpenEx(s *srv.Server, name string, flv bool, r *rand.Rand, videoOnly boo
 	if err != nil {
 		return nil, fmt.Errorf("publisher: %w", err)
 	}
-	if _, ok := s.Notify.WaitSessionFrom(5*time.Second, from, "pub_start", ss.pub.RC.Conn.LocalAddr().String()); !ok {
+	if _, ok := s.Notify.WaitSessionFrom(5*time.Second, from, "pub_start", srv.Key(ss.pub.RC.Conn)); !ok {
 		return nil, fmt.Errorf("publisher not accepted")
 	}
 	ss.pub.RC.SetChunkSize(4096)
